@@ -16,8 +16,11 @@ EXPLANATION = (
   "(and the default) is one of them; (R2) every m.group(<name>) names a group of the regex that "
   "matched, inside the slot type's own group for a slot parser, and every int(...) of a group is "
   "applied to a digits-only group that is certain to have matched (mandatory, `or <default>`, or "
-  "the other arm of a two-way alternation tested first); (R3) the unit tables agree -- the "
-  "conditional chain of _round_down_to_unit covers exactly _UNITS and ends in a ValueError, "
+  "the other arm of a two-way alternation tested first); (R3) the unit tables agree -- "
+  "_round_down_to_unit, evaluated unit by unit (conditional chain, if/return sequence or a "
+  "per-unit table of fields), gives every unit of _UNITS its own arm that clears exactly the "
+  "time-of-day fields finer than the unit (microseconds included) and turns any other unit "
+  "into a ValueError, "
   "dict(zip(..)) unit maps have equal lengths and land in _UNITS, interval aliases and the units "
   "_parse_interval lets through are units, Delta.add_interval handles months/years itself and "
   "hands only timedelta keywords to timedelta; (R4) every raise reachable from Schedule.__init__ "
@@ -323,43 +326,7 @@ def r3_units(run, w, mod, ce):
   if not (isinstance(units, tuple) and all(isinstance(u, str) for u in units)):
     raise AnalysisError("%s._UNITS is not a tuple of names" % M)
   rd = w.fn(M + "._round_down_to_unit")
-  rv = H.View(rd)
-  up = rd.fi.params()[1]
-  arms = H.decision_arms(rd.node)
-  seen, final = [], []
-  for a in arms:
-    pos, neg, other = [], [], []
-    for (atom, pol) in a.facts(rv):
-      c = H.eq_const(atom)
-      if c is not None and c[0] == up and isinstance(c[1], str):
-        (pos if pol else neg).append(c[1])
-      else:
-        other.append(atom)
-    if other:
-      raise AnalysisError("_round_down_to_unit: test outside the subset: %s" % other[0])
-    if len(pos) == 1 and a.kind == "return":
-      seen.append(pos[0])
-    elif not pos:
-      final.append((a, neg))
-    else:
-      raise AnalysisError("_round_down_to_unit: an arm tests the unit for two values")
-  run.ob(R3, rd.qualname, "chain covers %s" % (seen,), "every unit an interval can have is "
-         "rounded by its own arm (none falls through to the error arm, none is tested twice)",
-         sorted(seen) == sorted(units) and len(set(seen)) == len(seen), fi=rd.fi)
-  fails = len(final) == 1 and sorted(final[0][1]) == sorted(seen)
-  if fails:
-    fa = final[0][0]
-    e = fa.value
-    if fa.kind == "raise":
-      fails = isinstance(e, ast.Call) and dotted(e.func) == "ValueError"
-    elif fa.kind == "return":
-      fails = isinstance(e, ast.Call) and dotted(e.func) in mod.functions and \
-          _only_raises_valueerror(mod.functions[dotted(e.func)])
-    else:
-      fails = False
-  run.ob(R3, rd.qualname, "final arm: %s" % (short(final[0][0].value) if final and
-                                             final[0][0].value is not None else "<none>"),
-         "an unknown unit is a ValueError", fails, fi=rd.fi)
+  _rounding(run, R3, w, mod, ce, rd, units)
   vu = ce.name("_VALID_UNITS")
   run.ob(R3, "%s._VALID_UNITS" % M, "== set(_UNITS)", "the units _parse_interval lets through "
          "are exactly the units the rest of the module handles", vu == set(units), fi=None)
@@ -417,6 +384,164 @@ def r3_units(run, w, mod, ce):
   run.ob(R3, ai.qualname, "units handled by hand %s, the rest passed as timedelta(**{unit: n})"
          % sorted(own), "every unit that is not handled explicitly is a keyword datetime."
          "timedelta accepts (anything else would be a TypeError)", ok, fi=ai.fi)
+
+
+TIME_FIELDS = ("hour", "minute", "second", "microsecond")   # datetime's time-of-day fields,
+OWN_FIELD = {"hours": "hour", "minutes": "minute", "seconds": "second"}   # coarse to fine
+
+
+def _finer_fields(unit):
+  """time-of-day fields strictly finer than the unit (all of them for a day or longer)"""
+  if unit in OWN_FIELD:
+    return set(TIME_FIELDS[TIME_FIELDS.index(OWN_FIELD[unit]) + 1:])
+  return set(TIME_FIELDS)
+
+
+class _Undecided(Exception):
+  pass
+
+
+def _cond_value(test, unit_param, u, ce):
+  """Truth value of a condition of _round_down_to_unit for the concrete unit u."""
+  def val(e):
+    if isinstance(e, ast.Constant):
+      return e.value
+    if isinstance(e, ast.Name) and e.id == unit_param:
+      return u
+    if isinstance(e, (ast.Tuple, ast.List, ast.Set)):
+      return [val(x) for x in e.elts]
+    if isinstance(e, ast.Name):
+      c = ce.name(e.id)
+      if isinstance(c, H.OrderedPairs):
+        return c.keys()
+      if isinstance(c, H.ZipDict):
+        return c.pairs().keys()
+      if isinstance(c, (tuple, list, set, frozenset)):
+        return list(c)
+    raise _Undecided(short(e))
+  if isinstance(test, ast.UnaryOp) and isinstance(test.op, ast.Not):
+    return not _cond_value(test.operand, unit_param, u, ce)
+  if isinstance(test, ast.BoolOp):
+    vals = [_cond_value(x, unit_param, u, ce) for x in test.values]
+    return all(vals) if isinstance(test.op, ast.And) else any(vals)
+  if isinstance(test, ast.Compare) and len(test.ops) == 1:
+    l, r = val(test.left), val(test.comparators[0])
+    op = test.ops[0]
+    if isinstance(op, ast.Eq):
+      return l == r
+    if isinstance(op, ast.NotEq):
+      return l != r
+    if isinstance(op, ast.In):
+      return l in r
+    if isinstance(op, ast.NotIn):
+      return l not in r
+  raise _Undecided(short(test))
+
+
+def _reset_fields(e, unit_param, u, dparam, ce):
+  """(kind, fields set to zero, problems) of the rounded value for unit u."""
+  if isinstance(e, ast.Call) and dotted(e.func) in ("datetime", "datetime.datetime"):
+    kws = {k.arg for k in e.keywords}
+    if len(e.args) > 3 or (kws & set(TIME_FIELDS)) or None in kws:
+      raise AnalysisError("_round_down_to_unit: datetime(...) form outside the subset: %s"
+                          % short(e))
+    probs = []
+    want = {"years": ["%s.year" % dparam, "1", "1"],
+            "months": ["%s.year" % dparam, "%s.month" % dparam, "1"]}.get(u)
+    if want is not None and [text(a) for a in e.args] != want:
+      probs.append("date part %s" % [text(a) for a in e.args])
+    return "new", set(TIME_FIELDS), probs
+  if isinstance(e, ast.Call) and isinstance(e.func, ast.Attribute) and e.func.attr == "replace" \
+      and not e.args:
+    if not any(isinstance(y, ast.Name) and y.id == dparam for y in ast.walk(e.func.value)):
+      raise AnalysisError("_round_down_to_unit: replace() is not applied to the given time: %s"
+                          % short(e))
+    fields, probs = {}, []
+    for k in e.keywords:
+      if k.arg is not None:
+        if not isinstance(k.value, ast.Constant):
+          raise AnalysisError("_round_down_to_unit: non-constant field in %s" % short(e))
+        fields[k.arg] = k.value.value
+      else:
+        x = k.value
+        if not (isinstance(x, ast.Subscript) and isinstance(x.value, ast.Name)):
+          raise AnalysisError("_round_down_to_unit: **%s is outside the subset" % short(x))
+        key = x.slice.value if isinstance(x.slice, ast.Constant) else \
+            (u if isinstance(x.slice, ast.Name) and x.slice.id == unit_param else None)
+        table = ce.name(x.value.id)
+        entry = table.get(key) if isinstance(table, H.OrderedPairs) and key is not None else None
+        if not isinstance(entry, H.OrderedPairs):
+          raise AnalysisError("_round_down_to_unit: cannot read %s for unit %r" % (short(x), u))
+        for kk, vv in entry:
+          fields[kk] = vv
+    for kk, vv in fields.items():
+      if vv != 0:
+        probs.append("%s=%r" % (kk, vv))
+    base = e.func.value
+    if u == "weeks" and "isoweekday() % 7" not in text(base):
+      probs.append("not moved back to the start of the week")
+    if u != "weeks" and text(base) != dparam:
+      probs.append("applied to %s" % short(base))
+    return "replace", {k for k, vv in fields.items() if vv == 0}, probs
+  raise AnalysisError("_round_down_to_unit: rounded value outside the subset: %s" % short(e))
+
+
+def _rounding(run, R3, w, mod, ce, rd, units):
+  """_round_down_to_unit, decided unit by unit: the arm a unit selects (conditional chain,
+  if/return sequence, or a table of fields keyed by the unit) resets exactly the time-of-day
+  fields finer than the unit; an unknown unit is a ValueError."""
+  rv = H.View(rd)
+  dparam, up = rd.fi.params()[:2]
+  fails = lambda c: dotted(c.func) in mod.functions and \
+      _only_raises_valueerror(mod.functions[dotted(c.func)])
+  arms = H.decision_arms(rd.node, never_returns=fails)
+
+  def select(u):
+    out = []
+    for a in arms:
+      try:
+        if all(_cond_value(t, up, u, ce) == pol for (t, pol) in a.conds):
+          out.append(a)
+      except _Undecided as e:
+        raise AnalysisError("_round_down_to_unit: test outside the subset: %s" % e)
+    return out
+
+  seen = []
+  for u in units:
+    sel = select(u)
+    if len(sel) != 1:
+      raise AnalysisError("_round_down_to_unit: %d paths for unit %r" % (len(sel), u))
+    a = sel[0]
+    e = a.value
+    rounded = a.kind == "return" and e is not None and not (isinstance(e, ast.Call) and fails(e))
+    if rounded:
+      seen.append(u)
+    wit = None
+    ok = rounded
+    if rounded:
+      kind, fields, probs = _reset_fields(e, up, u, dparam, ce)
+      need = _finer_fields(u)
+      ok = not probs and (fields >= need if kind == "new" else fields == need)
+      if not ok:
+        wit = "resets %s, must reset %s%s" % (sorted(fields), sorted(need),
+                                              "; " + "; ".join(probs) if probs else "")
+    else:
+      wit = "falls through to the error arm"
+    run.ob(R3, rd.qualname, "unit %r" % u, "every unit an interval can have is rounded by its "
+           "own arm, which clears exactly the time-of-day fields finer than the unit "
+           "(microseconds included)", ok, witness=wit, fi=rd.fi, node=a.stmt)
+  other = select("\0not-a-unit")
+  ok = len(other) == 1
+  if ok:
+    a = other[0]
+    e = a.value
+    if a.kind == "raise":
+      ok = isinstance(e, ast.Call) and (dotted(e.func) == "ValueError" or fails(e))
+    elif a.kind == "return":
+      ok = isinstance(e, ast.Call) and fails(e)
+    else:
+      ok = False
+  run.ob(R3, rd.qualname, "any other unit", "an unknown unit is a ValueError", ok, fi=rd.fi)
 
 
 def _only_raises_valueerror(fi):
@@ -740,6 +865,46 @@ VARIANTS = [
   ("rounding-forgets-minutes", S,
    "      else dtime.replace(second=0, microsecond=0)                              if unit == 'minutes'\n",
    "", "C35-R3"),
+  ("seeded-field-table-minutes-keep-microseconds", S,
+   "def _round_down_to_unit(dtime, unit):\n"
+   "  \"\"\"\n"
+   "  Rounds datetime down to the given unit. Weeks are rounded to start of Sunday.\n"
+   "  \"\"\"\n"
+   "  tz = dtime.tzinfo\n"
+   "  return ( datetime(dtime.year, 1, 1, tzinfo=tz)                               if unit == 'years'\n"
+   "      else datetime(dtime.year, dtime.month, 1, tzinfo=tz)                     if unit == 'months'\n"
+   "      else (dtime - timedelta(days=dtime.isoweekday() % 7))\n"
+   "           .replace(hour=0, minute=0, second=0, microsecond=0)                 if unit == 'weeks'\n"
+   "      else dtime.replace(hour=0, minute=0, second=0, microsecond=0)            if unit == 'days'\n"
+   "      else dtime.replace(minute=0, second=0, microsecond=0)                    if unit == 'hours'\n"
+   "      else dtime.replace(second=0, microsecond=0)                              if unit == 'minutes'\n"
+   "      else dtime.replace(microsecond=0)                                        if unit == 'seconds'\n"
+   "      else _fail(\"Invalid unit %s\" % unit)\n"
+   "  )\n",
+   "_TIME_FIELDS_TO_RESET = {\n"
+   "  'days':     dict(hour=0, minute=0, second=0, microsecond=0),\n"
+   "  'hours':    dict(minute=0, second=0, microsecond=0),\n"
+   "  'minutes':  dict(second=0),\n"
+   "  'seconds':  dict(microsecond=0),\n"
+   "}\n\n"
+   "def _round_down_to_unit(dtime, unit):\n"
+   "  tz = dtime.tzinfo\n"
+   "  if unit == 'years':\n"
+   "    return datetime(dtime.year, 1, 1, tzinfo=tz)\n"
+   "  if unit == 'months':\n"
+   "    return datetime(dtime.year, dtime.month, 1, tzinfo=tz)\n"
+   "  if unit == 'weeks':\n"
+   "    dtime -= timedelta(days=dtime.isoweekday() % 7)\n"
+   "    unit = 'days'\n"
+   "  if unit not in _TIME_FIELDS_TO_RESET:\n"
+   "    _fail(\"Invalid unit %s\" % unit)\n"
+   "  return dtime.replace(**_TIME_FIELDS_TO_RESET[unit])\n", "C35-R3"),
+  ("minutes-keep-microseconds", S, "else dtime.replace(second=0, microsecond=0) ",
+   "else dtime.replace(second=0)                ", "C35-R3"),
+  ("hours-keep-seconds", S, "else dtime.replace(minute=0, second=0, microsecond=0) ",
+   "else dtime.replace(minute=0, microsecond=0)           ", "C35-R3"),
+  ("days-also-reset-for-hours", S, "else dtime.replace(minute=0, second=0, microsecond=0) ",
+   "else dtime.replace(hour=0, minute=0, second=0, microsecond=0) ", "C35-R3"),
   ("short-units-one-short", S, "dict(zip(('y', 'm', 'w', 'd', 'H', 'M', 'S'), _UNITS))",
    "dict(zip(('y', 'm', 'w', 'd', 'H', 'M'), _UNITS))", "C35-R3"),
   ("alias-unknown-unit", S, "  'daily':    (1, 'days'),", "  'daily':    (1, 'day'),", "C35-R3"),
